@@ -17,6 +17,7 @@ import ast
 from ..core import rule
 from ..srcmodel import AnalysisError, walk_no_nested, attr_chain, unparse, norm_stmt
 from ..callgraph import attr_writes
+from ..paths import enumerate_paths
 from .. import terms as T
 from .common import *
 
@@ -165,6 +166,12 @@ def de2_is_map_order_independent(ctx):
     reorder = [c for s in between for c in calls_where(s, lambda c: callee_text(c).split('.')[-1] in ('sorted', 'sort', 'reversed', 'shuffle', 'argsort', 'set'))]
     ctx.check(not reorder, 'DifferentialEvolutionSolver2._Step#no-reorder', 'results are not reordered between the map and their use',
               'map results are reordered (%s) before use' % (callee_text(reorder[0]) if reorder else ''), f, reorder[0] if reorder else maps[0])
+    # the step itself must not branch on which map was supplied
+    mapconds = [n for n in walk_no_nested(f.node) if isinstance(n, (ast.If, ast.IfExp, ast.While)) and
+                any(is_self_attr(x, '_map', sn) or (isinstance(x, ast.Name) and x.id == 'python_map') for x in ast.walk(n.test))]
+    ctx.check(not mapconds, 'DifferentialEvolutionSolver2._Step#map-agnostic', 'no branch of the step depends on the identity of the map',
+              'DE2._Step behaves differently depending on which map is installed (`%s`): bookkeeping and stopping then depend on the map' % (unparse(mapconds[0].test) if mapconds else ''),
+              f, mapconds[0] if mapconds else maps[0])
     pm = ctx.func('mystic.python_map:python_map')
     rets = [n for n in pm.node.body if isinstance(n, ast.Return)]
     b = T.Builder()
@@ -240,3 +247,40 @@ def one_random_source(ctx):
         if badk:
             ctx.bad('strategy.' + q, 'strategy uses %s' % badk[0][1], f, badk[0][2])
     ctx.ok('mystic.strategy', '%d strategy functions draw from the global generator only' % len(sm.funcs), None, None)
+
+
+@rule('C07.f', min_instances=1)
+def ensemble_query_does_not_resolve_limits_early(ctx):
+    """AbstractEnsembleSolver.Terminated (default all=None) answers "not terminated" for an ensemble with missing members before it resolves the ensemble's None limits to defaults (which would then be pushed into every member, unlike run-to-completion mode)"""
+    f = ctx.func('mystic.abstract_ensemble_solver:AbstractEnsembleSolver.Terminated')
+    sn = selfname_of(f)
+
+    def rel(n):
+        if isinstance(n, ast.Call) and self_call(n, '_SetEvaluationLimits', sn):
+            return True
+        return isinstance(n, ast.Return) or (isinstance(n, ast.Name) and n.id in ('all', 'end'))
+    paths = enumerate_paths(f.node, relevant=rel, unroll=(0, 1))
+    ctx.stats['paths_enumerated'] += len(paths)
+    bad = None
+    n = 0
+    for p in paths:
+        all_none = False
+        checked_members = False
+        for e in p.events:
+            if e[0] == 'cond':
+                txt = ''.join(unparse(e[1]).split())
+                if txt == 'allisNone' and e[2]:
+                    all_none = True
+                if txt == 'Falseinend' and not e[2]:
+                    checked_members = True
+            elif e[0] == 'stmt' and calls_where(e[1], lambda c: self_call(c, '_SetEvaluationLimits', sn), include_lambda=False):
+                # which default mode is this path in?  `all is True` returns earlier; all=None must have passed the member check
+                took_true = any(x[0] == 'cond' and ''.join(unparse(x[1]).split()) == 'allisTrue' and x[2] for x in p.events)
+                mode_known = any(x[0] == 'cond' and ''.join(unparse(x[1]).split()) in ('allisTrue', 'allisNone') for x in p.events[:p.events.index(e)])
+                n += 1
+                if not mode_known or (all_none and not checked_members):
+                    bad = (p, e[1])
+    ctx.need(n > 0, 'ensemble Terminated no longer resolves the limits at all')
+    ctx.check(bad is None, 'AbstractEnsembleSolver.Terminated#limits-after-member-check', '%d paths: limits are resolved only after the all/None member checks' % n,
+              'the ensemble resolves its None limits to defaults before checking that its members exist/terminated; a `while not Terminated(): Step()` loop then '
+              'pushes those defaults into every member, unlike Solve(): %s' % (bad[0].describe(6) if bad else ''), f, bad[1] if bad else f.node)
